@@ -185,6 +185,10 @@ class Linear:
                     elif sk == "maybe-return":
                         holders.add(dest)      # Err(item) hands it back; the Ok arm consumes (decided at the switch)
                         kinds[dest] = "push-result:" + origin
+                    elif c == "<std::option::Option as std::ops::Try>::branch":
+                        # `opt?`: the item (if any) travels in Continue; Break carries no value
+                        holders.add(dest)
+                        kinds[dest] = "optcf:" + origin
                     elif self.transparent(c, t):
                         holders.add(dest)
                         kinds[dest] = "item:" + origin
@@ -224,7 +228,7 @@ class Linear:
                         if names is None:
                             names = si.get("rest") or ["?"]
                         hs = set(holders)
-                        if all(n in EMPTY_VARIANTS for n in names):
+                        if all(n in EMPTY_VARIANTS for n in names) or (kinds.get(h, "").startswith("optcf:") and list(names) == ["Break"]):
                             hs.discard(h)
                             cs = consumed
                             if kinds.get(h) == "push-result:p" and "Ok" in names:
